@@ -14,3 +14,4 @@ import SPModel.Conform
 import SPModel.Pipeline
 import SPModel.PipelineSem
 import SPModel.RandomGen
+import SPModel.Decode
